@@ -386,6 +386,34 @@ func (e *Env) hostileStrings(newGroup func(*c03group) int, emit func(c03exp)) {
 			}
 		}
 	}
+	// a separator that brings a combining mark with it: every code point whose NFKD form is a
+	// space followed by marks (U+00A8, U+00B4, U+309B, ...) in place of a separator or glued in
+	// front of a word, and a plain separator followed by a stray mark. The token after it starts
+	// with a mark and is no list word.
+	{
+		r := rng.New(e.Seed, "C03-spacemark")
+		g := e.Gen()
+		for k, cp := range g.spaceMark {
+			lang := k % ref.NLang
+			w := sentence(r, lang, ref.EntSizes[k%5], 0)
+			pos := 1 + r.Intn(len(w)-1)
+			glued := strings.Join(w[:pos], " ") + string(cp) + strings.Join(w[pos:], " ")
+			emit(c03exp{s: glued, lang: lang, class: "space-plus-mark-code-point-as-separator", group: -1})
+			before := strings.Join(w[:pos], " ") + " " + string(cp) + strings.Join(w[pos:], " ")
+			emit(c03exp{s: before, lang: lang, class: "space-plus-mark-code-point-before-a-word", group: -1})
+			emit(c03exp{s: strings.Join(w, " ") + string(cp), lang: lang, class: "space-plus-mark-code-point-at-the-end", group: -1})
+		}
+		for lang := 0; lang < ref.NLang; lang++ {
+			for k, m := range []string{"\u0301", "\u0308", "\u3099", "\u0323\u0301", "\u05bc"} {
+				w := sentence(r, lang, ref.EntSizes[k], 0)
+				pos := 1 + r.Intn(len(w)-1)
+				for _, sep := range []string{" ", "\u3000", "\u00a0"} {
+					s := strings.Join(w[:pos], " ") + sep + m + strings.Join(w[pos:], " ")
+					emit(c03exp{s: s, lang: lang, class: "stray-mark-after-a-separator", group: -1})
+				}
+			}
+		}
+	}
 	// fixed oddities, every language
 	for lang := 0; lang < ref.NLang; lang++ {
 		for _, s := range []string{"", " ", "           ", strings.Repeat(" ", 23), "\x00", "\xff\xfe", strings.Repeat("a ", 12), strings.Repeat("abandon ", 12)} {
